@@ -289,7 +289,8 @@ def openStep (cfg : PartCfg) (s : DC) (x : Xml) (inCell : Bool) (roots : List (L
   | some "IMAGE" => withTrue ((imageRun cfg x "embed") >>= fun t => insertOpt cfg.html s t)
   | some "IMAGEDATA" => withTrue ((imageRun cfg x "id") >>= fun t => insertOpt cfg.html s t)
   | some "IMAGE_ALT" => withTrue (insertOpt cfg.html s
-      ((x.attrGet ⟨none, lit "descr"⟩).map fun d => lit "----Image alt text---->" ++ d ++ ['<']))
+      ((x.attrGet ⟨none, lit "descr"⟩).map fun d =>
+        lit "----Image alt text---->" ++ (if cfg.html then escapeHtml d else d) ++ ['<']))
   | some "TAB" => withTrue (s.insertNewRun cfg.html ['\t'])
   | _ => pure (s, true)
 
